@@ -45,20 +45,33 @@ func genLakeCase(t *rapid.T) LakeCase {
 	sKinds := pickOf(t, "s-kinds", [][]string{{"string"}, {"string"}, {"string"}, {"string"}, {"string", "nullstr"}, {"string", "missing"}, {"string", "int64"}, {"int64"}, {"string", "nullstr", "missing"}, {"bool"}})
 	nKinds := pickOf(t, "n-kinds", [][]string{{"int64"}, {"int64"}, {"int64"}, {"int64"}, {"uint64"}, {"float64q"}, {"int64", "float64q"}, {"int64", "nullint"}, {"int64", "missing"}, {"int64", "string"}, {"int32"}, {"int64", "uint64"}})
 	nb := ir(t, 1, 3, "nbatches")
+	// 6%: one long load into large objects, so that columns with more than 256 distinct values (plain vectors) occur
+	long := chance(t, 6, "long")
+	if long {
+		c.Pool.Thresh = 0
+	}
 	key := 0
 	for i := 0; i < nb; i++ {
-		enc := func(name string) string { return pick(t, name+"-enc", "const", "dict", "dict", "plain") }
+		enc := func(name string) string {
+			if long && i == 0 {
+				return "plain"
+			}
+			return pick(t, name+"-enc", "const", "dict", "dict")
+		}
 		s := newCol(t, "s", sKinds, enc("s"))
 		n := newCol(t, "n", nKinds, enc("n"))
 		rows := ir(t, 1, 12, "rows")
+		if long && i == 0 {
+			rows = ir(t, 258, 280, "rows-long")
+		}
 		var sb strings.Builder
 		for r := 0; r < rows; r++ {
 			fields := []string{fmt.Sprintf("k:%d", key)}
 			key += ir(t, 0, 2, "keystep")
-			if v, ok := s.value(t, key); ok {
+			if v, ok := s.value(t, r); ok {
 				fields = append(fields, "s:"+v)
 			}
-			if v, ok := n.value(t, key); ok {
+			if v, ok := n.value(t, r); ok {
 				fields = append(fields, "n:"+v)
 			}
 			sb.WriteString("{" + strings.Join(fields, ",") + "} ")
@@ -296,7 +309,7 @@ func lakeRootCause(p LakeProg, r lakeRun, f colFeatures, sym string) string {
 			return "sum/float-ignored"
 		case f.kinds["uint"] || f.kinds["uint-narrow"]:
 			return "sum/unsigned-reported-as-int64"
-		case f.kinds["null"] || f.kinds["missing"] || f.kinds["string"]:
+		case f.kinds["null"] || f.kinds["missing"] || nonNumeric(f.kinds):
 			return "sum/nothing-summable-or-null"
 		case f.encs["const"] > 0:
 			return "sum/const-vector-ignored"
@@ -305,6 +318,15 @@ func lakeRootCause(p LakeProg, r lakeRun, f colFeatures, sym string) string {
 		}
 	}
 	return ""
+}
+
+func nonNumeric(kinds map[string]bool) bool {
+	for k := range kinds {
+		if family(k) != "num" {
+			return true
+		}
+	}
+	return false
 }
 
 func lakeSymptom(ref, got lakeRun) string {
@@ -509,7 +531,7 @@ func showFirst(vals []zed.Value) string {
 
 var lakeProp = &vt.Prop[LakeCase]{
 	Name: "TestVamLake",
-	Rule: "lake level: pool keyed on k (asc/desc, threshold {1,60,200,default}) loaded with 1..3 batches of 1..12 records {k,s,n}; s drawn from string / string+null / string+missing / string+int / int / bool columns and n from int64 / uint64 / float (quarter-valued, so sums are exact) / mixes with null, missing, string, int32 - each as const, dictionary or plain column per load; " +
+	Rule: "lake level: pool keyed on k (asc/desc, threshold {1,60,200,default}) loaded with 1..3 batches of 1..12 records {k,s,n}; s drawn from string / string+null / string+missing / string+int / int / bool columns and n from int64 / uint64 / float (quarter-valued, so sums are exact) / mixes with null, missing, string, int32 - each as const or dictionary column per load (6%: one load of 258..280 records with distinct values, i.e. plain vectors); " +
 		"1..3 programs from the auto-vectorized shapes (`count() by <field>`, `sum(<field>)` on s, n, the pool key; with a leading filter; followed by other operators) and programs that must not be vectorized; every program is executed at parallelism 2 through NewJob->Optimize->Parallelize(2)->Build in four vector states: no vectors (reference), vectors on some objects, vectors on all objects, after DeleteVectors (of some or all). " +
 		"All states must return the reference's multiset and never fail; dag.Vectorize may appear only when every object has vectors. evaluations = program executions after the reference; a case is non-trivial when a built plan contained dag.Vectorize; distinct = (case digest, program).",
 	Gen: genLakeCase,
